@@ -168,6 +168,15 @@ for n in ([2, 3, 4, 7, 8] if Q else list(range(2, 20))):
         if not (np.allclose(a, b, atol=1e-9 * np.max(np.abs(M))) and np.allclose(a, mod, atol=1e-9 * np.max(np.abs(M)))):
             chk.violation("rotate:commutes", "interp(rotate(M, phi))(a, b) != interp(M)(a - phi, b - phi)",
                           {"n": n, "k": k, "matrix": M, "inc": qi, "out": qo, "impl_rotated": a, "impl_shifted_args": b, "model": mod})
+    # the dict version at EVERY whole number of grid steps (several turns, both signs): the shift of both indices by m
+    for m_ in range(-2 * n - 1, 2 * n + 2):
+        dm_ = scat.rotate_matrices({"LT": M}, m_ * 2 * np.pi / n)["LT"]
+        want_ = np.roll(np.roll(M, m_, axis=0), m_, axis=1)
+        evaluations += 1
+        if not np.allclose(dm_, want_, rtol=0, atol=1e-9 * np.max(np.abs(M))):
+            chk.violation("rotate:dict-steps", f"rotate_matrices by {m_} grid steps (n = {n}) is not the shift of both indices by {m_}",
+                          {"n": n, "steps": m_, "phi": m_ * 2 * np.pi / n, "matrix": M})
+            break
     d = scat.rotate_matrices({"LL": M, "TT": 2 * M}, 2 * np.pi / n)
     if not (np.allclose(d["LL"], scat.rotate_matrix(M, 2 * np.pi / n)) and np.allclose(d["TT"], 2 * d["LL"])):
         chk.violation("rotate:dict", "rotate_matrices differs from rotate_matrix per key", {"n": n})
@@ -202,7 +211,7 @@ for n in ([2, 5, 8] if Q else [2, 3, 5, 8, 13, 21]):
 for nf in ([1, 2, 3] if Q else [1, 2, 3, 4, 5]):
     n = int(rng.integers(2, 9))
     freqs = np.sort(rng.uniform(1e6, 10e6, nf))
-    if nf >= 2 and rng.random() < 0.6:
+    if nf >= 3 or (nf >= 2 and rng.random() < 0.6):
         # the sampled frequencies may be listed in any order (e.g. high to low in a data file)
         freqs = freqs[rng.permutation(nf)] if rng.random() < 0.5 else freqs[::-1].copy()
         chk.count(frequency_order="not increasing")
